@@ -72,6 +72,22 @@ Theorem C10_request_ignores_sni : forall ops, Forall legal ops ->
 Proof. exact request_ignores_sni. Qed.
 Print Assumptions C10_request_ignores_sni.
 
+(* "At every moment": [step_trace w p] lists the gateway states after every single manager mutation while the
+   event of op p is being applied.  In each of them every host resolves to what it resolved to before the event
+   or to what it resolves to after it; hence a host served by cluster c before AND after (the cluster's own
+   name, every retained server name, every name of any other cluster) is served by c at every intermediate point. *)
+Theorem C10_retained_names_never_drop : forall ops p, Forall legal ops -> legal p ->
+  let w := run empty_world ops in
+  forall gm, In gm (step_trace w p) ->
+  forall host,
+    (resolve_cluster gm host = resolve_cluster (w_gw w) host
+     \/ resolve_cluster gm host = resolve_cluster (w_gw (fst (step w p))) host)
+    /\ (forall c, resolve_cluster (w_gw w) host = Some c ->
+                  resolve_cluster (w_gw (fst (step w p))) host = Some c ->
+                  resolve_cluster gm host = Some c).
+Proof. exact retained_names_never_drop. Qed.
+Print Assumptions C10_retained_names_never_drop.
+
 (* ---------------------------------------------------------------- non-vacuity *)
 Definition mk (name : string) (sn : list string) (cert key ca : Z) : obj :=
   {| o_name := name; o_gates := []; o_fc := []; o_sn := sn; o_cert := cert; o_key := key; o_ca := ca;
@@ -94,6 +110,18 @@ Example C10_history_nonvacuous :
   /\ map (fun ops => so_valid (snd (step (run empty_world (firstn ops demo)) (nth ops demo (ODelete "")))))
          [0; 1; 2; 3]%nat = [true; false; true; true].
 Proof. split; [repeat constructor|]. vm_compute. repeat split; reflexivity. Qed.
+
+(* an update that keeps "y", drops "x" and adds "z" goes through two intermediate manager states; the cluster's
+   own name and the retained "y" resolve in both, "x" / "z" are in transit *)
+Example C10_retained_names_nonvacuous :
+  let w := run empty_world [OApply false (mk "a" ["x"; "y"] 1 1 0)] in
+  let p := OApply false (mk "a" ["y"; "z"] 2 2 0) in
+  legal p
+  /\ map (fun gm => map (resolve_cluster gm) ["a"; "x"; "y"; "z"]) (step_trace w p)
+     = [[Some "a"; None; Some "a"; None]; [Some "a"; None; Some "a"; Some "a"]]
+  /\ map (resolve_cluster (w_gw w)) ["a"; "x"; "y"; "z"] = [Some "a"; Some "a"; Some "a"; None]
+  /\ map (resolve_cluster (w_gw (fst (step w p)))) ["a"; "x"; "y"; "z"] = [Some "a"; None; Some "a"; Some "a"].
+Proof. split; [reflexivity|]. vm_compute. repeat split; reflexivity. Qed.
 
 Example C10_host_normalisation_nonvacuous :
   "kube-1" <> EmptyString /\ nospecial "KUBE-1" /\ nospecial "kube-1" /\ nospecial "6443"
